@@ -41,6 +41,8 @@ class Ledger(object):
         other = {n['index'] for n in (sim.rm_info.agent_node_list or []) +
                                      (sim.rm_info.service_node_list or [])}
         res.count('grants_checked')
+        if other:
+            res.count('grants_with_reserved_nodes_present')
         if app:
             res.count('app_placed_grants')
 
@@ -50,9 +52,18 @@ class Ledger(object):
         for rank, s in enumerate(view):
             ni = s['node_index']
             res.count('rank_slots_checked')
+            if ni in other:
+                # decided from the reserved lists alone: a node set aside for
+                # sub-agents/services must not host a task even if it (also)
+                # shows up in the node list the scheduler works from
+                res.count('reserved_node_checks_failed')
+                self._viol(sim, 'agent-node-used',
+                           '%s rank %d placed on reserved node %s'
+                           % (uid, rank, ni))
+                if ni not in nodes:
+                    continue
             if ni not in nodes:
-                self._viol(sim, 'agent-node-used' if ni in other
-                           else 'unknown-node',
+                self._viol(sim, 'unknown-node',
                            '%s rank %d placed on node %s' % (uid, rank, ni))
                 continue
             node = nodes[ni]
